@@ -61,6 +61,14 @@ theorem headerOK_of_shape (h : Header) (hs : HdrShape h) : HeaderOK h := by
   · have := encHeader_le h hs
     simp only [Spec.leaderSize, Spec.headerSize]; omega
 
+theorem hdrShape_set (h : Header) (hs : HdrShape h) (rh sg : Bytes) (len cc : Nat) (h1 : rh.length ≤ 32) (h2 : sg.length ≤ 64)
+    (h3 : U64 len) (h4 : U64 cc) :
+    HdrShape { h with tree := { h.tree with rootHash := rh, signature := sg, length := len }, contiguous := cc } :=
+  ⟨hs.key, hs.ns, hs.mkey, hs.pk, hs.sk, hs.ud, hs.reorgs, hs.fork, h3, h1, h2, h4⟩
+
+theorem hdrShape_contig (h : Header) (hs : HdrShape h) (cc : Nat) (h4 : U64 cc) : HdrShape { h with contiguous := cc } :=
+  ⟨hs.key, hs.ns, hs.mkey, hs.pk, hs.sk, hs.ud, hs.reorgs, hs.fork, hs.len, hs.rootHash, hs.sig, h4⟩
+
 /-! ### entries -/
 
 theorem encNodes_le (l : List Node) (h : NodesWF l) : (encNodes l).length ≤ 9 + 50 * l.length := by
